@@ -41,7 +41,7 @@ def gen_case(rng, tier, idx):
     wdw = rng.choice([w for w in (8, 16, 32, 64) if w >= cdw])
     ratio = wdw // cdw
     lg = ratio.bit_length() - 1
-    caw = rng.randint(max(1, lg), 8)
+    caw = rng.randint(max(1, lg), 8) if rng.random() < 0.85 else rng.choice([12, 16])
     return {"kind": "real" if idx % 3 == 2 else "stub", "cdw": cdw, "wdw": wdw, "caw": caw,
             "cycles": 350 if tier == "quick" else 1000}
 
